@@ -136,6 +136,10 @@ fn world(
                 exprs.push(None);
                 continue;
             }
+            Marking::TakenOver(k) => Stmt {
+                body: crate::running::Body::RejectPlus { inside_then: k & 1 == 0, before: k & 2 != 0, shape: k >> 2 },
+                ..Stmt::managed(name, &text)
+            },
         };
         exprs.push(if p.marking == Marking::Managed { expr } else { None });
         stmts.push(stmt);
